@@ -159,6 +159,26 @@ def run(ctx):
     r6.floor('alt_sites', n_alt, 330)
     r6.floor('ordered_pairs_compared', r6.instances, 500)
     r6.counts['alts_with_literal_arms'] = n_multi
+    # G6t: the same findings restricted to what the trivia function can reach (white space, comments, compiler directives
+    # kept as trivia): a shadowed alternative there changes how trivia is delimited, i.e. what the parser sees around it
+    from rules.g_cover import reachable
+    from rules.g_struct import trivia_fn
+    r6t = RuleResult('G6t', 'no alternative inside the trivia grammar (blanks, comments, directives kept as trivia) is shadowed by an earlier literal alternative')
+    tf = trivia_fn(g)
+    if tf is None:
+        r6t.fail('anchor:trivia-function', '-', 'the trivia function (operand of many0 in ws) was not found (fail closed)')
+    else:
+        closure = reachable(g, [tf])
+        r6t.counts['trivia_closure_functions'] = len(closure)
+        for fn_ in sorted(closure):
+            r6t.inst(fn_)
+        r6t.findings = [f_ for f_ in r6.findings if f_.key.split(':')[2] in closure]
+        import copy as _copy
+        r6t.findings = [_copy.copy(f_) for f_ in r6t.findings]
+        for f_ in r6t.findings:
+            f_.rule = 'G6t'
+            f_.key = 'G6t:' + f_.key.split(':', 1)[1]
+        r6t.floor('trivia_closure_functions', len(closure), 20)
 
     # ------------------------------------------------------------------ G7
     r7 = RuleResult('G7', 'word terminals are lexed with a word-boundary check')
@@ -271,4 +291,4 @@ def run(ctx):
     r7.counts['keyword_sites'] = n_kw
     r7.floor('keyword_sites', n_kw, 590)
     r7.floor('symbol_sites', n_sym, 790)
-    return [r6, r7]
+    return [r6, r6t, r7]
